@@ -375,7 +375,7 @@ func writeEvidenceFile(cfg *Config, prop string, results []*HarnessResult, viola
 			o := r.Obls[id]
 			posed += o.Posed
 			discharged += o.Discharged
-			if o.Nontrivial > 0 {
+			if o.Nontrivial > 0 || o.PathDependent > 0 {
 				// distinct by (harness, assertion id, source position)
 				for p := range o.Pos {
 					distinct[r.H.Name+"|"+id+"|"+p] = true
@@ -420,7 +420,7 @@ func writeEvidenceFile(cfg *Config, prop string, results []*HarnessResult, viola
 			"evaluations":         queries,
 			"distinct_nontrivial": len(distinct),
 			"rule": "one symbolic execution of the real SSA per control-flow path of each harness; an obligation is (assertion or implicit run-time check) x path, posed to the solver as pc AND NOT cond over all symbolic inputs; " +
-				"distinct_nontrivial counts obligations distinct by (harness, assertion id, source position) that were reached under a satisfiable path condition and whose condition still contained symbolic variables after simplification; evaluations = solver queries issued (feasibility + obligations)",
+				"distinct_nontrivial counts obligations distinct by (harness, assertion id, source position) that were reached under a satisfiable path condition and either still contained symbolic variables after simplification or were evaluated on a path selected by solver-checked symbolic decisions (obligations that are constant on the single decision-free path are not counted); evaluations = solver queries issued (feasibility + obligations)",
 			"samples":             samples,
 			"obligations":         posed,
 			"discharged":          discharged,
